@@ -21,4 +21,5 @@ def run(ctx, rep):
     exceptions.rule_catchable_classes(ctx, rep, "C18-R3", only_pred=_in_family, floor=1)
     builtins.rule_number_text_pitfalls(ctx, rep, "C18-R4")
     textparse.rule_ascii_digit_scanners(ctx, rep, "C18-R5", modules=("context", "values"))
+    builtins.rule_integral_double_printing(ctx, rep, "C18-R6")
     rep.undecided += ["the method result tables over the argument grid (values, not shape): a runtime differential, outside static analysis"]
